@@ -261,4 +261,57 @@ theorem source_roundtrip_uint32 (fuel : Nat) (hf : 11 ≤ fuel) (p : Bytes) (off
   omega
 
 
+/-- fixed32 field written by the translated `(*Encoder).EncodeFixed32` is read back by the translated
+    `DecodeTag` + `DecodeFixed32` (no model function in the statement). -/
+theorem source_roundtrip_fixed32 (fuel : Nat) (hf : 11 ≤ fuel) (p : Bytes) (off tag mode ks ke : BitVec 64) (v : BitVec 32)
+    (hp : p.length < 2 ^ 63) (hoff : off.toNat ≤ p.length) (ht1 : 1 ≤ tag.toNat) (ht : tag.toNat ≤ 536870911)
+    (se : Encoder_EncodeFixed32.St) (hret : Encoder_EncodeFixed32 fuel p off tag v = .ret () se) :
+    ∃ sd, Decoder_DecodeTag fuel se.e_p off mode ks ke = .ret (tag, 5#64, .nil) sd ∧
+      sd.d_p = se.e_p ∧ sd.d_mode = mode ∧ sd.d_keyStart = off ∧
+      ∃ sd2, Decoder_DecodeFixed32 fuel sd.d_p sd.d_offset sd.d_mode sd.d_keyStart sd.d_keyEnd = .ret (v, .nil) sd2 ∧
+        sd2.d_offset = se.e_offset := by
+  have htm : tag.toNat ≤ maxTagValue := ht
+  have hv32 : v.toNat < two32 := by unfold two32; exact v.isLt
+  obtain ⟨hfit, hbuf, hend⟩ := enc_returns (W := Encoder_EncodeFixed32 fuel p off tag v) p off.toNat (.fixed32 tag.toNat v.toNat)
+    (·.e_p) (·.e_offset) rfl (EncodeFixed32_refines fuel (by omega) p off tag v hp hoff) se hret
+  simp only [EncOp.wire, List.length_append] at hfit hbuf hend
+  have hl4 : (encFixed32 v.toNat).length = 4 := by simp [encFixed32]
+  have hlenw : (writeAt p off.toNat (encTag tag.toNat wtFixed32 ++ encFixed32 v.toNat)).length = p.length :=
+    writeAt_length (by simp only [List.length_append]; omega)
+  have hat := decOf_at p off ks ke false (encTag tag.toNat wtFixed32 ++ encFixed32 v.toNat) (by simp only [List.length_append]; omega)
+  rw [List.append_assoc] at hat
+  have htag := Dec.tag_at hat ht1 htm (by decide : wtFixed32 < 8)
+  obtain ⟨t, w, e, sd, hdt, hdp, hdm, hmatch⟩ := DecodeTag_refines fuel hf se.e_p off mode ks ke false
+    (by rw [hbuf, hlenw]; exact hp) (by rw [hbuf, hlenw]; exact hoff)
+  rw [hbuf] at hmatch hdt hdp
+  rw [htag] at hmatch
+  simp only [Dec.afterTag_off, Dec.afterTag_ks, Dec.afterTag_ke] at hmatch
+  obtain ⟨he, htn, hwn, hso, hsks, hske⟩ := hmatch
+  subst he
+  have htq : tag = t := (bv_eq_of_toNat htn).symm
+  have hwq : w = 5#64 := bv_eq_of_toNat (by rw [hwn]; rfl)
+  subst htq; subst hwq
+  have hks : sd.d_keyStart = off := bv_eq_of_toNat (by rw [hsks]; simp [decOf])
+  refine ⟨sd, by rw [hbuf]; exact hdt, by rw [hbuf]; exact hdp, hdm, hks, ?_⟩
+  have hat2 := hat.afterTag
+  have hd2 : decOf sd.d_p sd.d_offset sd.d_keyStart sd.d_keyEnd false =
+      (decOf (writeAt p off.toNat (encTag tag.toNat wtFixed32 ++ encFixed32 v.toNat)) off ks ke false).afterTag (encTag tag.toNat wtFixed32).length := by
+    simp only [decOf, Dec.afterTag, hdp, hso, hsks, hske]
+  have hel : ∀ rest, elFixed32 (encFixed32 v.toNat ++ rest) = .ok (v.toNat, (encFixed32 v.toNat).length) := by
+    intro rest; simp [elFixed32, nz, decodeFixed32_enc _ hv32, hl4]
+  have hne : encFixed32 v.toNat ≠ [] := by intro h; rw [h] at hl4; simp at hl4
+  have hsc := Dec.scalar_at (d := decOf sd.d_p sd.d_offset sd.d_keyStart sd.d_keyEnd false) (by rw [hd2]; exact hat2)
+    hne elFixed32 .nat v.toNat (hel _)
+  obtain ⟨x, e2, sd2, hdu, _, _, _, _, hm2⟩ := DecodeFixed32_refines fuel sd.d_p sd.d_offset sd.d_mode sd.d_keyStart sd.d_keyEnd false
+    (by rw [hdp, hlenw]; exact hp) (by rw [hdp, hlenw, hso]; simp [decOf]; omega)
+  simp only [Dec.step, withAlloc, hsc] at hm2
+  obtain ⟨he2, hx, ho2⟩ := hm2
+  subst he2
+  have hxq : v = x := (BitVec.eq_of_toNat_eq hx).symm
+  subst hxq
+  refine ⟨sd2, hdu, bv_eq_of_toNat ?_⟩
+  rw [ho2, hend]
+  simp [decOf, hso]
+  omega
+
 end Csproto.C01.Source
